@@ -39,7 +39,9 @@ class BlockDiagonalOperator(EndomorphicOperator):
         self._ops = tuple(operators[key] if key in operators else None for key in domain.keys())
         self._capability = self._all_ops
 
-        self._dtype = {kk: oo.sampling_dtype for kk, oo in operators.items()}
+        # missing entries ("unity") and operators without a sampling dtype (e.g. chains, sums) carry `None`
+        self._dtype = {kk: getattr(operators[kk], "sampling_dtype", None) if kk in operators else None
+                       for kk in domain.keys()}
         if all(vv is None for vv in self._dtype.values()):
             self._dtype = None
         check_dtype_or_none(self._dtype, self._domain)
@@ -72,7 +74,7 @@ class BlockDiagonalOperator(EndomorphicOperator):
         val = []
         for op, key in zip(self._ops, self._domain.keys()):
             if op is None:
-                if self._dtype is None or key not in self._dtype:
+                if self._dtype is None or self._dtype.get(key) is None:
                     raise RuntimeError("Need to specify dtype for all operators "
                                        f"that are set to None (key: {key}).")
                 a = from_random(self._domain[key], 'normal', dtype=self.sampling_dtype[key],
@@ -84,15 +86,26 @@ class BlockDiagonalOperator(EndomorphicOperator):
 
     def _combine_chain(self, op):
         check_object_identity(self._domain, op._domain)
-        res = {key: v1(v2)
-               for key, v1, v2 in zip(self._domain.keys(), self._ops, op._ops)}
+        # a missing entry is the unity operator
+        res = {}
+        for key, v1, v2 in zip(self._domain.keys(), self._ops, op._ops):
+            if v1 is None and v2 is None:
+                continue
+            res[key] = v2 if v1 is None else (v1 if v2 is None else v1(v2))
         return BlockDiagonalOperator(self._domain, res)
 
     def _combine_sum(self, op, selfneg, opneg):
+        from ..operators.scaling_operator import ScalingOperator
         from ..operators.sum_operator import SumOperator
         check_object_identity(self._domain, op._domain)
-        res = {key: SumOperator.make([v1, v2], [selfneg, opneg])
-               for key, v1, v2 in zip(self._domain.keys(), self._ops, op._ops)}
+        # a missing entry is the unity operator
+        res = {}
+        for key, v1, v2 in zip(self._domain.keys(), self._ops, op._ops):
+            if v1 is None:
+                v1 = ScalingOperator(self._domain[key], 1.)
+            if v2 is None:
+                v2 = ScalingOperator(self._domain[key], 1.)
+            res[key] = SumOperator.make([v1, v2], [selfneg, opneg])
         return BlockDiagonalOperator(self._domain, res)
 
     def __repr__(self):
